@@ -203,9 +203,13 @@ def build_property(pid, extra=()):
         m = re.search(r'File "\./([^"]+)", line (\d+)', log)
         if m:
             failed_file = '%s:%s' % (m.group(1), m.group(2))
+    # when a theorem no longer checks, the executable model may still build: the search for a failing input needs it
+    extra_ok = ok
+    if not ok and extra:
+        extra_ok, _ = make_target(' '.join(extra))
     return dict(ok=ok, log=log, obligations=len(names), discharged=len(names) if ok else 0,
                 names=names, cone=cone, bad=bad, closed=closed, axioms=assumptions,
-                failed_at=failed_file, wall=time.time() - t0)
+                failed_at=failed_file, wall=time.time() - t0, extra_ok=extra_ok)
 
 
 def run_cases(pid, tag, preamble, case_terms, checker, shard=400, timeout=900):
